@@ -40,6 +40,38 @@ def gen_cases(rng, tier, boost=1):
         w = rng.choice([0, 0, 0, 1, 2])
         cases.append("F %d %d %d %d %s" % (w, fmt, p, b, rng.choice(PREFIXES)))
         dist["double"] += 1
+    # targeted at the rounding decision (D49): exact ties, a 5 with non-zero digits below it in the
+    # stream, odd integers ending in 5, and exponents where realToString drops whole low words
+    ntie = (700 if tier == "quick" else 15000) * boost
+    dist["dyadic"] = dist["int5"] = dist["earlydrop"] = 0
+    for _ in range(ntie):
+        x = rng.randrange(1, 1 << rng.randrange(1, 21)) / float(1 << rng.randrange(0, 21))
+        cases.append("F 0 %d %d %d -" % (rng.randrange(3), rng.randrange(0, 8), dl.dbits(x)))
+        dist["dyadic"] += 1
+        nd = rng.randrange(2, 16)
+        j = rng.randrange(0, nd - 1)
+        hi = dl.rand_digits(rng, nd - j - 1)
+        lo = rng.choice(["0" * j, "0" * j, dl.rand_digits(rng, j, False) if j else ""])
+        v = int(hi + "5" + lo)
+        cases.append("F 0 0 %d %d -" % (nd - j - 1, dl.dbits(float(v))))
+        if j >= 1:
+            cases.append("F 0 %d %d %d -" % (rng.choice([1, 2]), 0, dl.dbits(v / float(1 << 1))))
+        dist["int5"] += 1
+    combos = []
+    for pe in range(20, 1075):
+        for pp in range(0, 41):
+            digits = (pe * 30103) // 100000 + 1
+            sh = 52 + pe - (digits + pp + 1)
+            if sh >= 64 and sh % 64 in (0, 1, 2) and digits + pp + 1 >= 54:
+                combos.append((pe, pp))
+    for _ in range(2 * ntie):
+        pe, pp = rng.choice(combos)
+        be = 1023 - pe
+        if be < 1:
+            continue
+        bits = (be << 52) | rng.getrandbits(52) | 1
+        cases.append("F 0 %d %d %d -" % (rng.randrange(3), pp, bits))
+        dist["earlydrop"] += 1
     for _ in range(nf):
         b = dl.rand_float_bits(rng)
         cases.append("G %d %d %d %d %s" % (rng.choice([0, 0, 1, 2]), rng.randrange(3), rng.choice([0, 1, 2, 6, 9, rng.randrange(0, 41)]), b, rng.choice(PREFIXES)))
@@ -101,7 +133,7 @@ def check(tier):
         "theorems": [{"name": n, "assumptions": a} for n, a in theorems],
         "evaluations": len(cases),
         "distinct_nontrivial": len({c for c in cases if nontrivial(c)}),
-        "rule": "doubles: uniform bit patterns, per binade, mantissa edges, subnormals, 10^k and 2^k +- 3 ulp, decimal-looking values, x.5 halves, integers; floats likewise; precision 0..40 x Default/Fixed/SemiFixed; destination streams empty and non-empty; char / char16_t / char32_t; integers of 8/16/32/64 bits, signed and unsigned, boundaries and 10^k +- 2. non-trivial = value not +-0 / integer with at least two digits",
+        "rule": "doubles: uniform bit patterns, per binade, mantissa edges, subnormals, 10^k and 2^k +- 3 ulp, decimal-looking values, x.5 halves, integers, dyadic rationals m/2^k, integers with a 5 at the rounding position (exact ties and near-ties), exponents at which realToString drops whole 64-bit words; floats likewise; precision 0..40 x Default/Fixed/SemiFixed; destination streams empty and non-empty; char / char16_t / char32_t; integers of 8/16/32/64 bits, signed and unsigned, boundaries and 10^k +- 2. non-trivial = value not +-0 / integer with at least two digits",
         "samples": [cases[0], cases[len(cases) // 2], cases[-1]],
         "input_distribution": dist,
         "traces_validated_against_impl": len(run.rows),
